@@ -370,6 +370,9 @@ class Database:
                 offsetGroupName = getH5GroupName(offsetCycle, node)
                 dbIn.copy(getH5GroupName(cycle, node), dbOut, name=offsetGroupName)
                 dbOut[offsetGroupName + "/Reactor/cycle"][()] = offsetCycle
+                # the group's own record of its cycle (what the history queries go by) as well
+                if "cycle" in dbOut[offsetGroupName].attrs:
+                    dbOut[offsetGroupName].attrs["cycle"] = offsetCycle
 
         return backupDBPath
 
